@@ -18,7 +18,40 @@ def fi():
         lg.propagate = False
         lg.setLevel(logging.CRITICAL + 1)
         _FI = format_inspector
+        _install_hash_seam(format_inspector)
     return _FI
+
+
+# Inspector objects are kept in sets by the SUT (and sets are built from sets:
+# `non_raw`, the errored set).  Their default hash is their address, so the
+# iteration order of those sets differs from process to process - the only
+# address-dependent order in the SUT.  The seam: a hash derived from the
+# run's salt and the inspector's NAME, installed on FileInspector unless the
+# tree defines a hash of its own.  The salt is set at the start of a run,
+# before any inspector exists, and every inspector of a run dies with it.
+_HASH = {'salt': 0, 'cache': {}}
+
+
+def _install_hash_seam(m):
+    cls = m.FileInspector
+    if '__hash__' in cls.__dict__ or '__eq__' in cls.__dict__:
+        return
+
+    def det_hash(self):
+        key = (_HASH['salt'], self.NAME)
+        h = _HASH['cache'].get(key)
+        if h is None:
+            h = core._h64('%d/%s' % key) >> 3
+            _HASH['cache'][key] = h
+        return h
+    cls.__hash__ = det_hash
+
+
+def set_hash_salt(obj):
+    """Call at the start of a run (no inspector may be alive)."""
+    _HASH['salt'] = core._h64(core.canon(obj)) & 0xffffffff
+    if len(_HASH['cache']) > 4096:
+        _HASH['cache'].clear()
 
 
 QUERIES = ('format_match', 'complete', 'virtual_size', 'context_info', 'str',
